@@ -43,7 +43,8 @@ public:
 };
 
 enum Kind { KPrim, KRaw, KStr, KPtr, KSafe, KPos, KObj, KVal };
-enum VKind { VNone, VInt, VFloat, VChar, VStr, VConst0, VConst, VVec, VListener, VCArr, VCRef };
+enum VKind { VNone, VInt, VFloat, VChar, VStr, VConst0, VConst, VVec, VListener, VCArr, VCRef,
+             VRef, VCon, VSCon, VArr, VARef, VPtr, VPRef };
 enum PrimT { I8, I16, I32, I64, U8, U16, U32, U64, CHR, SIZE, BYTE, F32, F64, BOOL, POS, PRIM_BAD };
 const char* primNames[] = { "i8", "i16", "i32", "i64", "u8", "u16", "u32", "u64", "chr", "size", "byte", "f32", "f64", "bool", "pos" };
 const unsigned primWidth[] = { 1, 2, 4, 8, 1, 2, 4, 8, 1, 8, 1, 4, 8, 1, 4 };
@@ -54,7 +55,9 @@ struct ValT {
     Bytes bytes;
     size_t lbl = 0;       // holder / listener
     size_t rc = 0;
-    std::vector<std::pair<size_t, ValT>> elems;
+    std::vector<std::pair<size_t, ValT>> elems;   // const array elements; hash array: key, value, key, value … (insertion order)
+    size_t tl = 0, th = 0, tli = 0;               // hash array: the set's header numbers the line announces
+    std::vector<size_t> perm;                     // hash array: order of the writer's table walk; pointer cell: its list
 };
 
 struct ItemT {
@@ -99,8 +102,18 @@ struct Run {
     std::deque<Listener*> plain;               // plain pointer slots (must outlive the Archiver)
     std::deque<SafePtr<Listener>> safe;
     std::deque<ScriptVariable> vars;           // top-level script variables (stable addresses)
+    std::deque<ScriptVariable> strays;         // write side: variables named by a Ref / a cell list but never archived
     std::map<size_t, ScriptConstArrayHolder*> holderVar;   // write side: const-array holder <label>
+    std::map<size_t, ScriptArrayHolder*> arrayVar;         // write side: hash-array holder <label>
+    std::map<size_t, ScriptPointer*> cellVar;              // write side: pointer cell <label>
+    std::map<size_t, ScriptVariable*> varAt;               // write side: variable <label> (top level, const-array elements)
+    std::vector<std::pair<ScriptVariable*, size_t>> refFix;            // write side: Ref variables to resolve once all exist
+    std::vector<std::pair<ScriptPointer*, std::vector<size_t>>> cellFix;
+    std::vector<std::string> canon;            // write side: real `tl th tli perm…` of every hash array, in build order
+    bool canonBad = false;                     // … differs from what the line announces
     std::map<const void*, size_t> holderSeen;  // read side: holders already rendered -> label
+    std::map<const ScriptVariable*, size_t> varLabel;      // read side: variable -> label (top level, const-array elements)
+    std::map<const void*, size_t> preSeen;                 // read side: holders met by labelVars
 
     Listener* obj(size_t lbl)
     {
@@ -133,10 +146,28 @@ struct Run {
     void prebuild(const std::vector<ItemT>& items)
     {
         for (auto& it : items) {
-            if (it.kind == KVal) { vars.emplace_back(); build(vars.back(), it.val); }
+            if (it.kind == KVal) { vars.emplace_back(); varAt[it.lbl] = &vars.back(); build(vars.back(), it.val); }
             else if (it.kind == KObj) prebuild(it.body);
         }
     }
+    // Ref variables and the lists of pointer cells name variables that may be built later
+    void resolve()
+    {
+        // a label that names no variable of the line (only in shrunk lines): a variable that is never archived
+        auto at = [&](size_t l) -> ScriptVariable* {
+            if (!l) return nullptr;
+            auto a = varAt.find(l);
+            if (a != varAt.end()) return a->second;
+            strays.emplace_back();
+            varAt[l] = &strays.back();
+            return &strays.back();
+        };
+        for (auto& f : refFix) f.first->m_data.refValue = at(f.second);
+        for (auto& f : cellFix) for (size_t l : f.second) f.first->list.AddObject(at(l));
+        refFix.clear(); cellFix.clear();
+    }
+    std::string keyText(const ScriptVariable& v);
+    void labelVars(const ScriptVariable& v, const std::vector<size_t>& supply, size_t& next);
     void build(ScriptVariable& v, const ValT& d);
     void render(const ScriptVariable& v, const std::vector<size_t>& supply, size_t& next, std::string& out);
     ~Run()
@@ -153,6 +184,17 @@ std::string hexOf(const Bytes& b);
 
 void supplyOf(const ValT& d, std::vector<size_t>& out)
 {
+    if (d.kind == VPtr) { out.push_back(d.lbl); return; }
+    if (d.kind == VArr) {
+        // the reader allocates the entries in archive order = the order of the writer's walk
+        out.push_back(d.lbl);
+        for (size_t j = 0; j < d.perm.size(); ++j) {
+            const size_t at = d.perm[j];
+            if (2 * at + 1 >= d.elems.size()) continue;
+            for (size_t q = 0; q < 2; ++q) { out.push_back(d.elems[2 * at + q].first); supplyOf(d.elems[2 * at + q].second, out); }
+        }
+        return;
+    }
     if (d.kind != VCArr) return;
     out.push_back(d.lbl);
     for (auto& e : d.elems) { out.push_back(e.first); supplyOf(e.second, out); }
@@ -185,6 +227,66 @@ void Run::build(ScriptVariable& v, const ValT& d)
         ScriptVariable dummy;
         v.setConstArrayValue(tmp.empty() ? &dummy : tmp.data(), tmp.size());
         holderVar[d.lbl] = v.m_data.constArrayValue;
+        for (size_t i = 0; i < d.elems.size(); ++i) {
+            // the element now lives in the holder; a Ref element built into the temporary is re-registered there
+            ScriptVariable* slot = &v.m_data.constArrayValue->constArrayValue[i + 1];
+            varAt[d.elems[i].first] = slot;
+            for (auto& f : refFix) if (f.first == &tmp[i]) f.first = slot;
+        }
+        break;
+    }
+    case VRef: v.ClearInternal(); v.type = variableType_e::Ref; v.m_data.refValue = nullptr; refFix.emplace_back(&v, d.lbl); break;
+    case VCon: v.ClearInternal(); v.type = variableType_e::Container;
+        v.m_data.containerValue = reinterpret_cast<const con::Container<SafePtr<Listener>>*>(obj(d.lbl)); break;
+    case VSCon: v.ClearInternal(); v.type = variableType_e::SafeContainer; v.m_data.safeContainerValue = new ConListPtr;
+        v.m_data.safeContainerValue->InitSafePtr(obj(d.lbl)); break;
+    case VPtr: {
+        ScriptPointer* cell = new ScriptPointer;
+        v.ClearInternal(); v.type = variableType_e::Pointer; v.m_data.pointerValue = cell;
+        cellVar[d.lbl] = cell;
+        cellFix.emplace_back(cell, d.perm);
+        break;
+    }
+    case VPRef: {
+        auto it = cellVar.find(d.lbl);
+        if (it != cellVar.end()) { v.ClearInternal(); v.type = variableType_e::Pointer; v.m_data.pointerValue = it->second; }
+        break;
+    }
+    case VArr: {
+        ScriptArrayHolder* hd = new ScriptArrayHolder;
+        std::vector<std::string> keys;
+        for (size_t i = 0; i + 1 < d.elems.size(); i += 2) {
+            ScriptVariable k, val;
+            build(k, d.elems[i].second);
+            build(val, d.elems[i + 1].second);
+            hd->arrayValue[k] = val;
+            {
+                ScriptVariable* slot = &hd->arrayValue[k];      // entries are heap nodes: stable across rehash
+                for (auto& f : refFix) if (f.first == &val) f.first = slot;
+            }
+            keys.push_back(keyText(k));
+        }
+        v.ClearInternal(); v.type = variableType_e::Array; v.m_data.arrayValue = hd;
+        arrayVar[d.lbl] = hd;
+        // the order in which the writer will walk the table, as indices into the insertion order
+        auto& set = hd->arrayValue.m_set;
+        std::string real = std::to_string(set.tableLength) + " " + std::to_string(set.threshold) + " " + std::to_string(set.tableLengthIndex);
+        std::vector<size_t> walk;
+        for (uintptr_t i = set.tableLength; i > 0; i--)
+            for (auto* e = set.table[i - 1]; e; e = e->Next()) {
+                const std::string kt = keyText(e->Key());
+                size_t at = 0;
+                while (at < keys.size() && keys[at] != kt) ++at;
+                walk.push_back(at);
+                real += " " + std::to_string(at);
+            }
+        canon.push_back(real);
+        if (set.tableLength != d.tl || set.threshold != d.th || set.tableLengthIndex != d.tli || walk != d.perm) canonBad = true;
+        break;
+    }
+    case VARef: {
+        auto it = arrayVar.find(d.lbl);
+        if (it != arrayVar.end()) { v.ClearInternal(); v.type = variableType_e::Array; v.m_data.arrayValue = it->second; it->second->refCount++; }
         break;
     }
     case VCRef: {
@@ -248,7 +350,91 @@ void Run::render(const ScriptVariable& v, const std::vector<size_t>& supply, siz
         }
         break;
     }
+    case variableType_e::Ref: {
+        auto it = varLabel.find(v.m_data.refValue);
+        out += "ref " + std::to_string(!v.m_data.refValue ? 0 : it == varLabel.end() ? 999999999 : it->second);
+        break;
+    }
+    case variableType_e::Container:
+        out += "con " + std::to_string(labelOf(reinterpret_cast<const Listener*>(v.m_data.containerValue)));
+        break;
+    case variableType_e::SafeContainer:
+        out += "scon " + std::to_string(labelOf(reinterpret_cast<const Listener*>(
+            v.m_data.safeContainerValue ? static_cast<SafePtrBase*>(v.m_data.safeContainerValue)->Pointer() : nullptr)));
+        break;
+    case variableType_e::Pointer: {
+        const ScriptPointer* c = v.m_data.pointerValue;
+        if (!c) { out += "pref 0"; break; }
+        auto it = holderSeen.find(c);
+        if (it != holderSeen.end()) { out += "pref " + std::to_string(it->second); break; }
+        const size_t lbl = take();
+        holderSeen[c] = lbl;
+        out += "ptr " + std::to_string(lbl) + " " + std::to_string(c->list.NumObjects());
+        for (size_t i = 1; i <= c->list.NumObjects(); ++i) {
+            const ScriptVariable* pv = c->list.ObjectAt(i);
+            auto w = varLabel.find(pv);
+            out += " " + std::to_string(!pv ? 0 : w == varLabel.end() ? 999999999 : w->second);
+        }
+        break;
+    }
+    case variableType_e::Array: {
+        const ScriptArrayHolder* h = v.m_data.arrayValue;
+        if (!h) { out += "aref 0"; break; }
+        auto it = holderSeen.find(h);
+        if (it != holderSeen.end()) { out += "aref " + std::to_string(it->second); break; }
+        const size_t lbl = take();
+        holderSeen[h] = lbl;
+        auto& set = h->arrayValue.m_set;
+        std::vector<std::pair<std::string, std::string>> es;
+        for (uintptr_t i = set.tableLength; i > 0; i--)
+            for (auto* e = set.table[i - 1]; e; e = e->Next()) {
+                take(); take();     // the entry's key and value variable
+                std::string ks, vs;
+                render(e->Key(), supply, next, ks);
+                render(e->Value(), supply, next, vs);
+                // every entry must be found again under its key (the table the load built must be usable)
+                const ScriptVariable* found = const_cast<ScriptArrayHolder*>(h)->arrayValue.find(e->Key());
+                if (found != &e->Value()) vs += "!lost";
+                es.emplace_back(ks, vs);
+            }
+        std::sort(es.begin(), es.end());
+        out += "arr " + std::to_string(lbl) + " " + std::to_string(h->refCount) + " " + std::to_string(set.tableLength) + " " +
+            std::to_string(set.threshold) + " " + std::to_string(set.tableLengthIndex) + " " + std::to_string(es.size());
+        for (auto& e : es) out += " " + e.first + " " + e.second;
+        break;
+    }
     default: out += "?kind" + std::to_string((int)v.type); break;
+    }
+}
+
+std::string Run::keyText(const ScriptVariable& v)
+{
+    std::string out;
+    size_t next = 0;
+    render(v, std::vector<size_t>(), next, out);
+    return out;
+}
+
+// read side, before rendering: the labels of the variables a Ref / a pointer cell may name (top-level variables by the
+// label of their `v` item, const-array elements by the supply, in the reader's allocation order)
+void Run::labelVars(const ScriptVariable& v, const std::vector<size_t>& supply, size_t& next)
+{
+    auto take = [&]() -> size_t { return next < supply.size() ? supply[next++] : 0; };
+    if (v.type == variableType_e::ConstArray && v.m_data.constArrayValue) {
+        const ScriptConstArrayHolder* h = v.m_data.constArrayValue;
+        if (preSeen.count(h)) return;
+        preSeen[h] = take();
+        for (size_t i = 1; i <= h->size; ++i) {
+            varLabel[&h->constArrayValue[i]] = take();
+            labelVars(h->constArrayValue[i], supply, next);
+        }
+    } else if (v.type == variableType_e::Array && v.m_data.arrayValue) {
+        const ScriptArrayHolder* h = v.m_data.arrayValue;
+        if (preSeen.count(h)) return;
+        preSeen[h] = take();
+        for (size_t i = 0; i < 2 * h->arrayValue.m_set.count; ++i) take();
+    } else if (v.type == variableType_e::Pointer && v.m_data.pointerValue) {
+        if (!preSeen.count(v.m_data.pointerValue)) preSeen[v.m_data.pointerValue] = take();
     }
 }
 
@@ -474,9 +660,34 @@ bool parseValue(const std::vector<std::string>& t, size_t& i, ValT& v)
         if (k == "vec" && v.bytes.size() != 12) return false;
         v.kind = k == "s" ? VStr : k == "k" ? VConst : VVec; i += 2; return true;
     }
-    if (k == "l" || k == "car") {
+    if (k == "l" || k == "car" || k == "ref" || k == "con" || k == "scon" || k == "aref" || k == "pref") {
         if (i + 1 >= t.size() || !nat(t[i + 1], a)) return false;
-        v.kind = k == "l" ? VListener : VCRef; v.lbl = a; i += 2; return true;
+        v.kind = k == "l" ? VListener : k == "car" ? VCRef : k == "ref" ? VRef : k == "con" ? VCon : k == "scon" ? VSCon :
+            k == "aref" ? VARef : VPRef;
+        v.lbl = a; i += 2; return true;
+    }
+    if (k == "ptr") {
+        uint64_t p, n;
+        if (i + 2 >= t.size() || !nat(t[i + 1], p) || !nat(t[i + 2], n) || i + 3 + n > t.size()) return false;
+        v.kind = VPtr; v.lbl = p; i += 3;
+        for (uint64_t e = 0; e < n; ++e) { if (!nat(t[i], a)) return false; v.perm.push_back(a); i += 1; }
+        return true;
+    }
+    if (k == "arr") {
+        uint64_t h, rc, tl, th, tli, n;
+        if (i + 6 >= t.size() || !nat(t[i + 1], h) || !nat(t[i + 2], rc) || !nat(t[i + 3], tl) || !nat(t[i + 4], th) ||
+            !nat(t[i + 5], tli) || !nat(t[i + 6], n) || i + 7 + n > t.size()) return false;
+        v.kind = VArr; v.lbl = h; v.rc = rc; v.tl = tl; v.th = th; v.tli = tli; i += 7;
+        for (uint64_t e = 0; e < n; ++e) { if (!nat(t[i], a)) return false; v.perm.push_back(a); i += 1; }
+        for (uint64_t e = 0; e < 2 * n; ++e) {
+            uint64_t self;
+            if (i >= t.size() || !nat(t[i], self)) return false;
+            i += 1;
+            v.elems.emplace_back();
+            v.elems.back().first = self;
+            if (!parseValue(t, i, v.elems.back().second)) return false;
+        }
+        return true;
     }
     if (k == "ca") {
         uint64_t h, rc, n;
@@ -642,6 +853,13 @@ std::string readBack(const unsigned char* data, size_t len, bool shortForm, bool
         if (err) res = shortForm ? std::string(err) : std::string("err ") + err;
         else {
             std::string s;
+            for (const ItemT& it : out) if (it.kind == KVal) {
+                std::vector<size_t> supply;
+                supplyOf(it.val, supply);
+                size_t next = 0;
+                run.varLabel[&run.vars[it.slot]] = it.lbl;
+                run.labelVars(run.vars[it.slot], supply, next);
+            }
             showItems(out, run, s);
             res = shortForm ? "ok:" + std::to_string(fnv(s)) : "ok " + s;
         }
@@ -847,7 +1065,8 @@ int main(int argc, char** argv)
             continue;
         }
         if (t[0] == "lis") { say(lisCase(t)); continue; }
-        if (t[0] == "arc") {
+        if (t[0] == "arc" || t[0] == "canon") {
+            const bool canonOnly = t[0] == "canon";
             uint64_t v;
             Bytes h, n;
             Case c;
@@ -865,11 +1084,16 @@ int main(int argc, char** argv)
             static char wbuf[1u << 23];     // static: operator new goes through the limited memory manager
             struct { char* get() { return wbuf; } } buf;
             size_t len = 0;
-            std::string werr;
+            std::string werr, canon;
+            bool canonBad = false;
             {
                 Run run;
                 run.collect(cur.items);
                 run.prebuild(cur.items);
+                run.resolve();
+                for (auto& c : run.canon) canon += (canon.empty() ? "" : " ; ") + c;
+                canonBad = run.canonBad;
+                if (!(canonOnly || canonBad)) {
                 std::vector<ItemT> out;
                 version_info_t info;
                 info.header = cur.header.c_str();
@@ -884,7 +1108,11 @@ int main(int argc, char** argv)
                     len = (size_t)os.tellp();
                 }
                 catch (...) { werr = "write-failed"; }
+                }
             }
+            // `canon`: the real header numbers and walk order of every hash array of the line, in build order
+            if (canonOnly) { cur.have = false; say(canon.empty() ? "-" : canon); continue; }
+            if (canonBad) { cur.have = false; say("canon-mismatch " + canon); continue; }
             if (!werr.empty() || len > cap) { cur.have = false; say("write-failed"); continue; }
             cur.bytes.assign(reinterpret_cast<unsigned char*>(buf.get()), reinterpret_cast<unsigned char*>(buf.get()) + len);
             say(hexOf(cur.bytes) + " | " + readBack(cur.bytes.data(), cur.bytes.size(), false));
